@@ -120,10 +120,33 @@ Definition str3_eqb (a b : string * string * string) : bool :=
   let '(a1, a2, a3) := a in let '(b1, b2, b3) := b in
   String.eqb a1 b1 && String.eqb a2 b2 && String.eqb a3 b3.
 
-Definition field_known (f : string * string * string * string) : bool :=
-  existsb (fun e => str4_eqb f (fst e)) field_table.
-Definition var_known (v : string * string * string) : bool :=
-  existsb (String.eqb (fst (fst v))) artefact_dirs || existsb (str3_eqb v) var_table.
+(** What needs a reviewed entry is decided by TYPE and by USE, not by mere existence:
+    - a field of a singleton struct needs one when its type is reference-like (pointer, map, slice, channel,
+      sync / sync/atomic) or an external named type of unknown mutability (interfaces, generic containers,
+      foreign structs), or when the field is assigned outside constructors (New… / Precompile… / Init… / init);
+      plain values (string, bool, numbers, byte arrays, gethcommon.Address / Hash), function values and fields whose
+      type is a local struct (whose own fields are inventoried) are immutable by construction;
+    - a package-level variable needs one when it is reference-like (anything but: error values made by errors.New /
+      fmt.Errorf / errorsmod.Register, basic literals, function literals, address / hash values) or assigned outside
+      init; variables of the artefact / CLI / test-helper directories are not part of the node's execution paths.
+    Type aliases, new helper functions, per-call structs, sentinel errors, constants never need an entry. *)
+Definition reference_kinds : list string := ["ptr"; "map"; "slice"; "chan"; "sync"; "named"].
+
+Definition field_needs_entry (f : string * string * string * string * string * bool) : bool :=
+  let '(_, _, _, _, kind, assigned) := f in existsb (String.eqb kind) reference_kinds || assigned.
+
+Definition field_known (f : string * string * string * string * string * bool) : bool :=
+  let '(d, st, fl, ty, _, _) := f in
+  negb (field_needs_entry f) || existsb (fun e => str4_eqb (d, st, fl, ty) (fst e)) field_table.
+
+Definition var_needs_entry (v : string * string * string * string * bool) : bool :=
+  let '(d, _, _, kind, assigned) := v in
+  negb (existsb (String.eqb d) artefact_dirs) && (String.eqb kind "ref" || assigned).
+
+Definition var_known (v : string * string * string * string * bool) : bool :=
+  let '(d, n, _, _, _) := v in
+  negb (var_needs_entry v) ||
+  existsb (fun e => String.eqb d (fst (fst e)) && String.eqb n (snd (fst e))) var_table.
 
 (** the only class that is mutable at run time AND not confined to a context is [Guarded] *)
 Definition runtime_mutable (c : sclass) : bool := match c with Guarded => true | _ => false end.
